@@ -140,13 +140,28 @@ def run(ctx):
     ok = False
     nd_name = ad_name = None
     if len(shift) == 1:
-        t = shift[0]._parent.test
-        ad_name = shift[0].value.id
-        if isinstance(t, ast.Compare) and len(t.ops) == 1 and isinstance(t.left, ast.Name) and isinstance(t.comparators[0], ast.Name):
-            if isinstance(t.ops[0], ast.Lt) and t.left.id == ad_name:
-                nd_name, ok = t.comparators[0].id, True
-            elif isinstance(t.ops[0], ast.Gt) and t.comparators[0].id == ad_name:
-                nd_name, ok = t.left.id, True
+        # the subtracted name, followed through aliases and `None` placeholders (a helper returning "no pickup") to the
+        # variable that holds the measured duration; the comparison `actual < normal` guards the subtraction or the alias
+        defs_ = X.local_defs(ti)
+        chain = [shift[0].value.id]
+        while True:
+            real = [v for v in defs_.get(chain[-1], []) if not (isinstance(v, ast.Constant) and v.value is None) and v is not shift[0].value]
+            if len(real) == 1 and isinstance(real[0], ast.Name) and real[0].id not in chain:
+                chain.append(real[0].id)
+            else:
+                break
+        ad_name = chain[-1]
+        guards = [shift[0]._parent.test]
+        for n in own_nodes(ti.node):
+            if isinstance(n, ast.Assign) and isinstance(n.targets[0], ast.Name) and n.targets[0].id in chain and isinstance(n.value, ast.Name) and n.value.id in chain \
+                    and isinstance(getattr(n, "_parent", None), ast.If):
+                guards.append(n._parent.test)
+        for t in guards:
+            if isinstance(t, ast.Compare) and len(t.ops) == 1 and isinstance(t.left, ast.Name) and isinstance(t.comparators[0], ast.Name):
+                if isinstance(t.ops[0], ast.Lt) and t.left.id in chain:
+                    nd_name, ok = t.comparators[0].id, True
+                elif isinstance(t.ops[0], ast.Gt) and t.comparators[0].id in chain:
+                    nd_name, ok = t.left.id, True
     ctx.check(ok, "PICKUP", "origin shifted by the pickup length", func=ti, construct="pickup-shift",
               msg="the origin must be moved by the actual duration of a first measure that is shorter than its time signature")
     import re as _re
